@@ -825,8 +825,11 @@ def component_part(ck) -> dict:
 def system_part(ck) -> dict:
     """Binding A (Sampler level): real runs whose driver overwrites, between iterations, everything returned by
     sample() / results() / posterior() / state.to_dict() / the getters, pair-validated against an unscribbled
-    twin.  Built separately; returns its evidence dict and reports through ck.violation like component_part."""
-    return {}
+    twin.  Built separately (checks/c17_system.py); returns its evidence dict and reports through ck.violation."""
+    sys.path.insert(0, os.path.dirname(os.path.abspath(__file__)))
+    import c17_system
+
+    return c17_system.system_part(ck)
 
 
 def main():
